@@ -151,6 +151,12 @@ def fault_programs(rng, w, n):
         srcw = ('empty @is_you(int n) { write("pre "); int[] small = [7, 8]; %s x[n]; write(x.length); write(small[0]); write(small[1]); write(" post"); }' % el)
         for v in sorted(x for x in wraps if 0 < x < H):
             out.append((srcw, [str(v)], 'two_lengthwrap_' + el))
+        # the same lengths (and the negative ones) written as constants: a compile-time length takes the same guard
+        srcc = ('empty @is_you(int n) { write("pre "); int secret = 1234; int[] small = [7, 8]; %s x[%%s]; write(x.length); x[n] = %s; write(secret); '
+                'write(small[0]); write(small[1]); write(" post"); }' % (el, lit(el)))
+        for v in sorted(x for x in wraps if 0 < x < H) + [-1, -3, -7, -8, -9]:
+            for a in ('0', '29'):
+                out.append((srcc % v, [a], 'two_lengthwrap_const_' + el))
         src2 = ('empty f(int n) { %s x[n]; write(x.length); } empty @is_you(int n) { write("pre "); for (int i = 0; i < 3; i += 1) { f(n + i); } write(" post"); }' % el)
         for _ in range(max(1, n // 40)):
             out.append((src2, [str(rng.choice([0, 1, -1, -2, -3, -8, -9, 5]))], 'length_call_' + el))
@@ -195,8 +201,17 @@ def scope_programs(rng, n):
                         % (rng.choice(['continue;', 'break;', 'acc += 1;']), kind))
         if use_call:
             body.append('acc += helper([i, 2], i);')
+        # a try body that owns no array itself but calls a defeat function (chain) that is defeated while its arrays are alive:
+        # the handler must put ap back to where the try began
+        dcall = rng.choice(['', '', 'acc += !deep(i);', 'acc += !outer(i);', 'acc += !witharg([i, 4], i);', '!deepv(i); acc += 1;'])
+        if dcall:
+            body.append('try { %s } %s { acc += 1000; }' % (dcall, rng.choice(['undo', 'stop', 'stop'])))
         body.append(uses[k1] % dict(k=1))
-        src = ('int helper(const int[] v, int i) { int[] loc = [v[0], i]; if (i %% 2 == 0) { return loc[1]; } byte z[3]; z[2] = 1; return v[1] + z[2]; }\n'
+        dfuncs = ('int !deep(int i) { int[] loc = [i, 2, 3]; byte z[(i % 3) + 1]; z[0] = 1; !truth_is_defeat(i % 3 == 1); return loc[0] + z[0]; }\n'
+                  'int !outer(int i) { int w[2]; w[0] = i; int r = !deep(i + 1); return r + w[0]; }\n'
+                  'int !witharg(const int[] v, int i) { !truth_is_defeat(i % 2 == 0); return v[1]; }\n'
+                  'empty !deepv(int i) { bool c[11]; c[10] = true; if (c[10]) { int[] q = [i]; !truth_is_defeat(q[0] % 4 != 0); } }\n') if dcall else ''
+        src = dfuncs + ('int helper(const int[] v, int i) { int[] loc = [v[0], i]; if (i %% 2 == 0) { return loc[1]; } byte z[3]; z[2] = 1; return v[1] + z[2]; }\n'
                'empty @is_you(int n) { int acc = 0; int[] keep = [5, 6, 7];\n for (int i = 0; i < n; i += 1) {\n  %s\n }\n'
                ' write(acc); write(\' \'); write(keep[0]); write(keep[2]); }' % ('\n  '.join(body)))
         out.append((src, [str(iters)], 'scope'))
@@ -386,6 +401,37 @@ def spec_programs():
         for rk, r in (('not_call', 'not chk()'), ('call', 'chk()'), ('cmp', 'bump() > d')):
             src = pre + 'empty @is_you(int d) { bool t = false; bool x = %s ?? %s; write(x); write(\' \'); write(g); writeln(); }\n' % (l, r)
             out.append(('specb_%s_%s' % (lk, rk), src, ['1']))
+    # the same expression in every *position* an expression can stand in (each has its own result register and its own way of
+    # consuming the value): return value, either operand of arithmetic / comparison, index, array length, condition, argument,
+    # compound assignment, element of an int / bool array literal, unary operand
+    places = {'ret': ('int @pick(int v, int d) { return %s; }\n', 'write(@pick(3, d));'),
+              'arith_l': ('', 'int v = 3; write((%s) + 1);'), 'arith_r': ('', 'int v = 3; write(100 - (%s));'),
+              'cmp_l': ('', 'int v = 3; write((%s) < 6);'), 'cmp_r': ('', 'int v = 3; write(4 <= (%s));'),
+              'index': ('', 'int v = 3; write(arr[(%s) % 3]);'), 'vla': ('', 'int v = 3; int a[%s]; write(a.length);'),
+              'cond': ('', 'int v = 3; if ((%s) > 4) { write("gt"); } else { write("le"); }'),
+              'while': ('', 'int v = 3; int n = 0; while ((%s) > 4 and n < 2) { n += 1; write(\'w\'); }'),
+              'arg': ('', 'int v = 3; write(id(%s));'), 'arg2': ('int sub(int a, int b) { return a - b; }\n', 'int v = 3; write(sub(%s, 1)); write(\' \'); write(sub(50, %s));'),
+              'iadd': ('', 'int v = 3; int x = 40; x += %s; write(x);'), 'elem': ('', 'int v = 3; int[] a = [1, %s, 3]; write(a[1]);'),
+              'elem0': ('', 'int v = 3; int[] a = [%s, v]; write(a[0]);'), 'neg': ('', 'int v = 3; write(-(%s));'),
+              'store': ('', 'int v = 3; int[] a = [0, 0]; a[1] = %s; write(a[1]);'), 'gstore': ('int gx = 0;\n', 'int v = 3; gx = %s; write(gx);')}
+    for pk, (extra, body) in places.items():
+        for lk in ('var', 'call', 'arith'):
+            for rk in ('bare', 'var', 'coerced', 'div', 'arith'):
+                e = '%s ?? %s' % (lefts[lk], rights[rk])
+                src = pre + extra.replace('%s', e) + 'empty @is_you(int d) { %s write(\' \'); write(g); writeln(); }\n' % body.replace('%s', e)
+                for d in ('0', '3'):
+                    out.append(('specp_%s_%s_%s' % (pk, lk, rk), src, [d]))
+    bplaces = {'ret': ('bool @pickb(bool t, int d) { return %s; }\n', 'write(@pickb(false, d));'), 'elem': ('', 'bool t = false; bool[] a = [true, %s, t]; write(a[1]); write(a[0]);'),
+               'elem0': ('', 'bool t = false; bool[] a = [%s, true, false]; write(a[0]); write(a[1]);'), 'not': ('', 'bool t = false; write(not (%s));'),
+               'and_l': ('', 'bool t = false; write((%s) and true);'), 'cond': ('', 'bool t = false; if (%s) { write("T"); } else { write("F"); }')}
+    for pk, (extra, body) in bplaces.items():
+        for l in ('t', 'true'):
+            for rk, r in (('call', 'chk()'), ('cmp', 'bump() > d'), ('var', 'u')):
+                e = '%s ?? %s' % (l, r)
+                src = (pre + extra.replace('%s', e).replace('bool t, int d) {', 'bool t, int d) { bool u = d > 0;')
+                       + 'empty @is_you(int d) { bool u = d > 0; %s write(\' \'); write(g); writeln(); }\n' % body.replace('%s', e))
+                for d in ('0', '1'):
+                    out.append(('specpb_%s_%s_%s' % (pk, l, rk), src, [d]))
     return out
 
 
